@@ -149,7 +149,7 @@ theorem no_resume_by_old_target (body : σ → Resume → Burst ℚ σ) (fuel : 
     (∀ pr, s.proc? p = some pr → pr.target ≠ some t → Cb.resume p ∉ L) ∧
     ((s.ev p).out ≠ none → Cb.resume p ∉ L) ∧
     (Cb.resume p ∈ L → L.count (.resume p) = 1) := by
-  have hi := (Once.Inv0.reach body fuel h0 (fun h => by cases h) hsafe hr).regOnce
+  have hi := (Once.Inv0.reach body fuel h0 (fun h => by cases h) hsafe (fun h => by cases h) hr).regOnce
   refine ⟨?_, ?_, ?_⟩
   · intro pr hp hne hm
     obtain ⟨_, ⟨pr', h1, h2⟩, _⟩ := hi t L p hL hm
